@@ -10,6 +10,7 @@ import (
 	"sort"
 	"strings"
 	"sync"
+	"time"
 
 	"github.com/go-logr/logr"
 	"github.com/spf13/viper"
@@ -92,6 +93,7 @@ func (m *c01Store) Close() error { return nil }
 // ---- case coding ----
 
 type c01Case struct {
+	Store   *c01Store // kind 0/2: ingest into this store instead of a fresh one (not part of the case text)
 	Kind    int
 	Columns []string
 	PKNames []string
@@ -184,6 +186,7 @@ func c01Stable(records [][]string, delim rune) ([][]string, bool) {
 // ---- what a run reads back ----
 
 type c01Result struct {
+	Hang      bool // the in-process CLI command never returned
 	Err       error
 	Sum       []byte
 	Tbl       *objects.Table
@@ -226,12 +229,32 @@ func c01ReadBack(db objects.Store, sum []byte, res *c01Result) {
 	}
 }
 
+// errC01Hang is returned by c01Wrgl when the in-process command does not return within the
+// watchdog period (its goroutine is abandoned).
+var errC01Hang = fmt.Errorf("wrgl command did not return within the watchdog period")
+
+const c01Watchdog = 120 * time.Second
+
 func c01Wrgl(out io.Writer, args ...string) error {
-	cmd := wrgl.RootCmd()
-	cmd.SetOut(out)
-	cmd.SetErr(io.Discard)
-	cmd.SetArgs(args)
-	return cmd.Execute()
+	done := make(chan error, 1)
+	go func() {
+		defer func() {
+			if r := recover(); r != nil {
+				done <- fmt.Errorf("panic: %v", r)
+			}
+		}()
+		cmd := wrgl.RootCmd()
+		cmd.SetOut(out)
+		cmd.SetErr(io.Discard)
+		cmd.SetArgs(args)
+		done <- cmd.Execute()
+	}()
+	select {
+	case err := <-done:
+		return err
+	case <-time.After(c01Watchdog):
+		return errC01Hang
+	}
 }
 
 // c01NewRepo creates a temporary repository and points the CLI at it.
@@ -277,7 +300,10 @@ func c01Ingest(ctx *Ctx, k c01Case) *c01Result {
 	}
 	c19WithTmp(ctx, func(dir string) {
 		if k.Kind == 2 {
-			db := c01NewStore()
+			db := k.Store
+			if db == nil {
+				db = c01NewStore()
+			}
 			res.DB = db
 			s, err := sorter.NewSorter(sorter.WithRunSize(k.RunSize))
 			if err != nil {
@@ -302,7 +328,10 @@ func c01Ingest(ctx *Ctx, k c01Case) *c01Result {
 			return
 		}
 		if k.Kind == 0 {
-			db := c01NewStore()
+			db := k.Store
+			if db == nil {
+				db = c01NewStore()
+			}
 			res.DB = db
 			opts := []sorter.SorterOption{sorter.WithRunSize(k.RunSize)}
 			if k.Delim != ',' {
@@ -334,6 +363,11 @@ func c01Ingest(ctx *Ctx, k c01Case) *c01Result {
 			args = append(args, "--delimiter", string(k.Delim))
 		}
 		res.Err = c01Wrgl(io.Discard, args...)
+		if res.Err == errC01Hang {
+			res.Hang = true
+			res.DB = c01NewStore()
+			return
+		}
 		db, err := rd.OpenObjectsStore()
 		if err != nil {
 			panic(err)
@@ -409,12 +443,19 @@ func (cn *c01Canon) blocks(blocks [][][]string) *xt.T {
 	return t
 }
 
+// c01PkIndicesOf: the key column indices; ok=false when a name is no column or a column
+// is named twice (such keys must be refused).
 func c01PkIndicesOf(columns, names []string) ([]int, bool) {
 	var idx []int
+	taken := map[int]bool{}
 	for _, n := range names {
 		found := false
 		for i, c := range columns {
 			if c == n {
+				if taken[i] {
+					return nil, false
+				}
+				taken[i] = true
 				idx = append(idx, i)
 				found = true
 			}
@@ -437,6 +478,10 @@ func c01Judge(k c01Case, res *c01Result, bad func(class, format string, a ...int
 		}
 	}
 	pkIdx, pkOK := c01PkIndicesOf(k.Columns, k.PKNames)
+	if res.Hang {
+		bad("commit-hangs", "wrgl commit did not return within %v (workers %d, run size %d)", c01Watchdog, k.Workers, k.RunSize)
+		return
+	}
 	if res.Err != nil {
 		if !over && pkOK {
 			bad("ingest-error", "ingestion failed on a valid input: %v", res.Err)
@@ -769,25 +814,30 @@ func genC01(ctx *Ctx) []Case {
 	g := &c01Gen{ctx: ctx, huge: uint64(1) << 40}
 	ab := []string{"a", "b"}
 	// ---- witnesses ----
-	g.add("witness", true, c01Case{0, ab, []string{"a"}, [][]string{{"", "1"}, {"x", "2"}}, g.huge, nil, 1, ','})    // 8d128f5
-	g.add("witness", true, c01Case{0, ab, []string{"a"}, [][]string{{"", "1"}, {"x", "2"}}, 1, []int{1, 0}, 4, ';'}) // spilled
+	g.add("witness", true, c01Case{nil, 0, ab, []string{"a"}, [][]string{{"", "1"}, {"x", "2"}}, g.huge, nil, 1, ','})    // 8d128f5
+	g.add("witness", true, c01Case{nil, 0, ab, []string{"a"}, [][]string{{"", "1"}, {"x", "2"}}, 1, []int{1, 0}, 4, ';'}) // spilled
 	big := func(n int) string { return strings.Repeat("z", n) }
-	g.add("witness", true, c01Case{0, []string{"a", "b", "c", "d"}, []string{"a"},
+	g.add("witness", true, c01Case{nil, 0, []string{"a", "b", "c", "d"}, []string{"a"},
 		[][]string{{"k", big(30000), big(30000), big(30000)}, {"j", "1", "2", "3"}}, g.huge, nil, 1, ','}) // eebb087 row > 64KiB
-	g.add("witness", true, c01Case{0, ab, []string{"a"}, [][]string{{"k", big(65535)}, {"j", "1"}}, 100, nil, 3, ','})
-	g.add("witness", true, c01Case{0, ab, []string{"a"}, [][]string{{"k", big(65536)}, {"j", "1"}}, g.huge, nil, 1, ','}) // refused
-	g.add("witness", true, c01Case{0, ab, []string{"a"}, [][]string{{"j", "1"}, {"k", big(70000)}}, 1, nil, 4, ','})      // 9a70dee
-	g.add("witness", true, c01Case{0, ab, []string{"nope"}, [][]string{{"j", "1"}}, 1, nil, 1, ','})                      // unknown key
-	g.add("witness", true, c01Case{0, []string{"a"}, []string{"a"}, [][]string{{""}, {"x"}}, g.huge, nil, 1, ','})
-	g.add("witness", true, c01Case{1, []string{"a"}, []string{"a"}, [][]string{{""}, {"x"}}, 4096, nil, 1, ','}) // known finding (export)
-	g.add("witness", true, c01Case{1, ab, []string{"a"}, [][]string{{"", ""}, {"x", "y"}}, 4096, nil, 1, ','})
+	g.add("witness", true, c01Case{nil, 0, ab, []string{"a"}, [][]string{{"k", big(65535)}, {"j", "1"}}, 100, nil, 3, ','})
+	g.add("witness", true, c01Case{nil, 0, ab, []string{"a"}, [][]string{{"k", big(65536)}, {"j", "1"}}, g.huge, nil, 1, ','}) // refused
+	g.add("witness", true, c01Case{nil, 0, ab, []string{"a"}, [][]string{{"j", "1"}, {"k", big(70000)}}, 1, nil, 4, ','})      // 9a70dee
+	g.add("witness", true, c01Case{nil, 0, ab, []string{"nope"}, [][]string{{"j", "1"}}, 1, nil, 1, ','})                      // unknown key
+	g.add("witness", true, c01Case{nil, 0, []string{"a"}, []string{"a"}, [][]string{{""}, {"x"}}, g.huge, nil, 1, ','})
+	g.add("witness", true, c01Case{nil, 0, []string{"unnamed__1", "", "k"}, []string{"k"}, [][]string{{"1", "2", "b"}, {"3", "4", "a"}}, g.huge, nil, 1, ','}) // renamed to unnamed__2
+	g.add("witness", true, c01Case{nil, 0, ab, []string{"a", "a"}, [][]string{{"2", "x"}, {"1", "y"}, {"2", "z"}}, 1, nil, 4, ','})                            // e2f1265 key column named twice: refused
+	g.add("witness", true, c01Case{nil, 2, ab, []string{"b", "a", "b"}, [][]string{{"2", "x"}, {"1", "y"}}, 4096, nil, 1, ','})
+	g.add("witness", true, c01Case{nil, 0, []string{"a", "a", "b"}, []string{"a"}, [][]string{{"1", "2", "x"}, {"1", "1", "y"}, {"1", "2", "z"}}, 1, nil, 1, ','}) // KeyIndices takes every matching column
+	g.add("witness", true, c01Case{nil, 0, []string{"", "k", ""}, []string{"k"}, [][]string{{"1", "b", "2"}, {"3", "a", "4"}}, 1, nil, 1, ','})                    // two empty names
+	g.add("witness", true, c01Case{nil, 1, []string{"a"}, []string{"a"}, [][]string{{""}, {"x"}}, 4096, nil, 1, ','})                                              // known finding (export)
+	g.add("witness", true, c01Case{nil, 1, ab, []string{"a"}, [][]string{{"", ""}, {"x", "y"}}, 4096, nil, 1, ','})
 	{
 		var rows [][]string
 		for i := 0; i < 300; i++ {
 			rows = append(rows, []string{fmt.Sprintf("%04d", i), "v"})
 		}
 		rows = append(rows, []string{"0254", "dup"})
-		g.add("witness", true, c01Case{0, ab, []string{"a"}, rows, g.huge, []int{1, 0}, 4, ','}) // fa79010
+		g.add("witness", true, c01Case{nil, 0, ab, []string{"a"}, rows, g.huge, []int{1, 0}, 4, ','}) // fa79010
 	}
 	// ---- exhaustive tiny scope: cells {"", a, b}; every key choice; run sizes 1 / ~2 rows / none ----
 	vals := []string{"", "a", "b"}
@@ -814,7 +864,7 @@ func genC01(ctx *Ctx) []Case {
 		rec = func(prefix [][]string) {
 			for pi, pk := range pks {
 				for ri, rs := range []uint64{1, 17, g.huge} {
-					g.add("exh", len(prefix) >= 2, c01Case{0, c01ColNames(ncols), pk, prefix, rs, []int{ri, pi % 2},
+					g.add("exh", len(prefix) >= 2, c01Case{nil, 0, c01ColNames(ncols), pk, prefix, rs, []int{ri, pi % 2},
 						c01Workers[(pi+ri)%len(c01Workers)], ','})
 					ctx.Count("exhaustive_cases")
 				}
